@@ -3,10 +3,19 @@ import Driver.CifArg
 import CifModel.Model.StoreStep
 import CifModel.Model.StoreFault
 import CifModel.Model.StoreContract
+import CifModel.Spec.StoreSpec
 /-
   family `store` (C04, C05) — and, through Driver/Fam/Iter.lean, family `iter` (C06): one request = one whole history.
   Request / answer formats: see harness/x_store.c (the executor of the real code); this file produces the same text from
   `CifModel.Store.step`.
+
+  THREE-WAY comparison: beside the store model (`step`) the driver runs the documented model with object identities (`specStep`,
+  Spec/StoreSpec) on the same history, from the empty world.  As long as the history keeps to the contract (`inContract`) the
+  documented model's prediction — result of the call, every CIF as a canonical dump (`AState.tree`), autocommit = "no iterator open",
+  liveness of every handle-table entry — is compared with the store model's; a difference is printed into the answer
+  (` !spec-result[…]`, ` !spec-cif:<slot>[…]`, ` !spec-handles`) with the documented model's text, and so becomes a disagreement with
+  the real code's observation (which check.py compares with the answer as a whole).  It is the executable double check of
+  `C04_refines_hist`; spec = store model = real code on every compared in-contract history.
 -/
 namespace Driver.Fam.Store
 open Driver CifModel CifModel.Store Driver.CifArg
@@ -243,9 +252,28 @@ def showStep (c : Option Caller) (op : Op) (r : Result) : String :=
            | none => "!43")))
   | _, _, _ => showResult op r
 
+/-- a CIF of the documented model as the canonical dump text -/
+def showDumpA (st : AState) : String := String.join (isort textLe (st.tree.map (showCont true)))
+
+/-- the documented model's prediction (`a1`, `rs`: what `specStep` made of the op) against the store model's (`w1`, `r`):
+    "" when they agree in the result text, in every CIF's dump and autocommit flag, and in the liveness of every handle-table entry -/
+def specDiff (a1 : AWorld) (rs : Result) (w1 : World) (r : Result) (c : Option Caller) (op : Op) : String :=
+  let t1 := showStep c op rs
+  let m1 := if t1 == showStep c op r then "" else " !spec-result[" ++ t1 ++ " ]"
+  let bad := (List.range (max w1.cifs.length a1.cifs.length)).filter (fun i =>
+    match w1.cifs.getD i none, a1.cifs.getD i none with
+    | none, none => false
+    | some s, some st => !(showDump s == showDumpA st && s.autocommit == !a1.cifBusy i)
+    | _, _ => true)
+  let m2 := String.join (bad.map (fun i => " !spec-cif:" ++ toString i ++ "[" ++
+    (match a1.cifs.getD i none with | some st => (if a1.cifBusy i then "ac=0" else "ac=1") ++ showDumpA st | none => "x") ++ " ]"))
+  let m3 := if a1.chs.map Option.isSome == w1.chs.map Option.isSome && a1.lhs.map Option.isSome == w1.lhs.map Option.isSome
+      && a1.its.map Option.isSome == w1.its.map Option.isSome then "" else " !spec-handles"
+  m1 ++ m2 ++ m3
+
 def runOps (ops : List (Mark × Option Caller × Op)) : String :=
-  let (_, _, out, _) := ops.foldl (fun (acc : World × List (Option String) × String × Bool) mo =>
-      let (w, last, out, ic0) := acc
+  let (_, _, out, _, _) := ops.foldl (fun (acc : World × List (Option String) × String × Bool × AWorld) mo =>
+      let (w, last, out, ic0, a) := acc
       let (m, c, op) := mo
       let ic := ic0 && inContract w op
       match m with
@@ -256,28 +284,69 @@ def runOps (ops : List (Mark × Option Caller × Op)) : String :=
           let (w1, _) := stepFaultAt w op (.inside false)
           let w2 := pushDead w1 op
           let (obs, last1) := observe w2 last ic
-          (w2, last1, out ++ " | rc=" ++ toString rc ++ " !fault1" ++ obs, ic)
+          (w2, last1, out ++ " | rc=" ++ toString rc ++ " !fault1" ++ obs, ic, absW w2)
         | none =>
           let (w1, r) := step w op
           let (obs, last1) := observe w1 last ic
-          (w1, last1, out ++ showStep c op r ++ " !fault1" ++ obs, ic)
+          (w1, last1, out ++ showStep c op r ++ " !fault1" ++ obs, ic, absW w1)
       | _ =>
         let (w1, r) := step w op
         let (obs, last1) := observe w1 last ic
         let tag := match m with | .mark f => " !fault" ++ toString f | _ => ""
-        (w1, last1, out ++ showStep c op r ++ tag ++ obs, ic)) (({} : World), [], "st", true)
+        -- the documented model on the same op (in-contract histories only: `C04_refines_hist` speaks about those)
+        let (a1, sd) := if ic then
+            (match specStep a op with
+             | some (a1, rs) => (a1, specDiff a1 rs w1 r c op)
+             | none => (absW w1, " !spec-none"))
+          else (absW w1, "")
+        (w1, last1, out ++ showStep c op r ++ tag ++ sd ++ obs, ic, a1)) (({} : World), [], "st", true, ({} : AWorld))
   out
 
+/-- what an in-contract op exercises, for the evidence histogram (letters, see `contractOf`) -/
+def featureOf (w : World) (op : Op) : String :=
+  let a := absW w
+  match op with
+  | .setVal h (some nm) _ =>
+    (match a.liveH h with
+     | none => ""
+     | some (e, st) =>
+       if !nm.valid then "i" else
+       match specGetItemLoop st e.h (some nm) with
+       | .ok l => (match st.findLoop l.cid l.loopNum with
+                   | some x => if x.packets.length ≥ 2 then "M" else if x.packets.length == 1 then "S" else "Z"
+                   | none => "")
+       | .error _ =>
+         (match st.loops.filter (fun y => y.cid == e.h.id && y.category == some []) with
+          | [] => "C"
+          | y :: _ => if y.packets.isEmpty then "P" else "J"))
+  | .setVal _ none _ => "i"
+  | .itOpen l => (match a.liveL l with
+                  | some (e, _) => if a.cifBusy e.cif then "R" else "O"
+                  | none => "")
+  | .itClose i | .itAbort i => if (a.liveI i).isSome then "E" else ""
+  | .cifNew | .itNext _ | .itUpd _ _ | .itRem _ => ""
+  | _ =>
+    -- an executed call on a CIF while an iterator is open on ANOTHER CIF of the history
+    if (step w op).2.rc.isSome && a.its.any Option.isSome then "X" else ""
+
 /-- family `storecontract`: `ic` when every op of the history is in contract (Model/StoreContract `inContract`) in the world it
-    meets, else `oc <index of the first op that is not>` -/
+    meets, else `oc <index of the first op that is not>`; then the set of features the in-contract part exercises:
+    set_value of an existing item in a loop with >= 2 packets (M), with one packet (S), with none (Z); set_value of a new item
+    creating the scalar loop (C), joining it (J), joining a scalar loop that has no packet (P); invalid / NULL name (i);
+    get_packets granted (O), refused because an iterator is open (R); close / abort (E); a call on another CIF while an iterator is
+    open (X); a call after an iterator session of the history ended (A) -/
 def contractOf (ops : List (Mark × Option Caller × Op)) : String :=
-  let (_, first, _) := ops.foldl (fun (acc : World × Option Nat × Nat) mo =>
-      let (w, first, idx) := acc
+  let (_, first, _, feats, _) := ops.foldl (fun (acc : World × Option Nat × Nat × List String × Bool) mo =>
+      let (w, first, idx, feats, ended) := acc
       let op := mo.2.2
-      (((step w op).1), (if first.isNone && !inContract w op then some idx else first), idx + 1)) (({} : World), none, 0)
-  match first with
-  | none => "ic"
-  | some k => "oc " ++ toString k
+      let first' := if first.isNone && !inContract w op then some idx else first
+      let f := if first'.isNone then featureOf w op else ""
+      let f := if first'.isNone && ended && f != "E" && (step w op).2.rc.isSome then f ++ "A" else f
+      let feats' := (f.toList.map (fun ch => String.singleton ch)).foldl (fun fs x => if fs.contains x then fs else fs ++ [x]) feats
+      (((step w op).1), first', idx + 1, feats', ended || f.startsWith "E")) (({} : World), none, 0, [], false)
+  (match first with
+   | none => "ic"
+   | some k => "oc " ++ toString k) ++ " f=" ++ String.join (isort (fun a b => decide (a ≤ b)) feats)
 
 def handle : Handler := fun args =>
   (parseOps (args.length + 1) args).map runOps
